@@ -230,6 +230,8 @@ def run_case(case):
             sig = "wrong|%s|%s|%s" % (case["impl"], "pull" if w % 2 == 0 else "push", wire.SYNC_NAMES[id_])
         dt = sess.clock.now() - t0
         stats["max_virtual_s"] = round(dt, 6)
+        if not viol and sess.dev.available is not True:
+            viol.append({"mechanism": "connection-dropped-by-failure", "detail": "%s: afterwards available=%r although only the transfer failed (nobody called close())" % (where, sess.dev.available)})
         if dt > 1.0 and not viol and not slow_send and not slow_dev and not dims.get("pace"):
             viol.append({"mechanism": "slow-failure", "detail": "%s: %.2f virtual seconds passed before the failure surfaced (timeouts are 10 s)" % (where, dt)})
         sample = {"case": case, "where": where, "outcome": out.brief(100)} if case["seed"][-1] == "3" and case["seed"][-2] in "pwl" else None
